@@ -64,6 +64,12 @@ HAND.append({"type": "record", "name": "Annot", "fields": [
     {"name": "u", "type": ["null", {"type": "string", "logicalType": "made-up"}]}]})
 
 
+# aliases on WRITER fields are of no consequence for resolution (only the reader's aliases rename)
+HAND.append({"type": "record", "name": "Contact", "fields": [
+    {"name": "email_address", "type": "string", "aliases": ["email", "mail"]}, {"name": "id", "type": "int", "aliases": ["ident"]},
+    {"name": "kind", "type": {"type": "enum", "name": "CK", "symbols": ["A", "B"], "aliases": ["OldCK"]}}]})
+
+
 def has_namespace(s):
     t = json.dumps(s)
     return '"namespace"' in t or any("." in n for n in _names(s))
@@ -149,7 +155,7 @@ def inline_all(s):
         return None
 
 
-def steps(W):
+def steps(W, first=True):
     """[(label, R)] single evolution steps at every position; R is a valid schema or is dropped by the caller."""
     out = [("identical-copy", copy.deepcopy(W))]
     inl = inline_all(W)
@@ -186,6 +192,16 @@ def steps(W):
                     emit(f"drop-field", path, dict(node, fields=[copy.deepcopy(x) for j, x in enumerate(fs) if j != i]))
                     emit("rename-field-with-alias", path, dict(node, fields=[dict(copy.deepcopy(x), name="renamed", aliases=[x["name"]]) if j == i else copy.deepcopy(x) for j, x in enumerate(fs)]))
                     emit("rename-field-no-alias", path, dict(node, fields=[dict(copy.deepcopy(x), name="renamed") if j == i else copy.deepcopy(x) for j, x in enumerate(fs)]))
+                for f in (fs if first else []):  # only aliases the WRITER declares (a later step's reader aliases do rename)
+                    for al in f.get("aliases", []):
+                        for pos in (0, len(fs)):
+                            # a reader-only field that happens to be named like an alias the WRITER declared for another field
+                            nf = copy.deepcopy(fs)
+                            nf.insert(pos, {"name": al, "type": "string", "default": "reader-default"})
+                            emit("add-field-named-like-writer-alias", path, dict(node, fields=nf))
+                            nf = copy.deepcopy(fs)
+                            nf.insert(pos, {"name": al, "type": "string"})
+                            emit("add-field-named-like-writer-alias-no-default", path, dict(node, fields=nf))
                 for pos in (0, len(fs)):
                     nf = copy.deepcopy(fs)
                     nf.insert(pos, {"name": "added", "type": "int", "default": 42})
@@ -391,7 +407,7 @@ def run_unit(i, tier):
                 names.resolve(R)
             except Exception:
                 continue
-            for label2, R2 in (steps(R)[1::5] if tier == "thorough" else steps(R)[1::4]):
+            for label2, R2 in (steps(R, first=False)[1::5] if tier == "thorough" else steps(R, first=False)[1::4]):
                 run_pair(fa, res, W, wnode, wdefs, label + "+" + label2, R2, data[:12] if tier == "thorough" else data[:4], seen, tier)
     res.distinct = len(seen)
     res.stats["reader_schemas"] += len(st)
